@@ -63,6 +63,7 @@ type Spec struct {
 	Bounds     map[string]string `json:"bounds"`
 	Outside    []string          `json:"outside"`
 	GoInline   bool              `json:"go_inline"`
+	Instrument []Instrument      `json:"instrument"`
 	Parts      []string          `json:"parts"` // further spec files of the same property (other modules / package sets)
 	Tags       []string          `json:"tags"`
 }
@@ -99,6 +100,7 @@ type Engine struct {
 	tier      string
 	mapOrderSym bool
 	noIfConv  bool
+	instrumented []string
 }
 
 type Worker struct {
@@ -230,6 +232,9 @@ func (e *Engine) buildOverlay() (map[string][]byte, error) {
 		}
 		ov[filepath.Join(e.spec.ModuleDir, dst)] = data
 	}
+	if err := e.instrument(ov); err != nil {
+		return nil, err
+	}
 	for _, sub := range e.spec.Substitute {
 		dir := filepath.Join(e.spec.ModuleDir, sub.Dir)
 		ents, err := os.ReadDir(dir)
@@ -253,7 +258,7 @@ func (e *Engine) buildOverlay() (map[string][]byte, error) {
 				}
 			}
 			full := filepath.Join(dir, n)
-			out, changed, err := substituteImports(full, sub.Imports)
+			out, changed, err := substituteImports(full, ov[full], sub.Imports)
 			if err != nil {
 				return nil, err
 			}
@@ -265,11 +270,14 @@ func (e *Engine) buildOverlay() (map[string][]byte, error) {
 	return ov, nil
 }
 
-func substituteImports(file string, imports map[string]string) ([]byte, bool, error) {
+func substituteImports(file string, src []byte, imports map[string]string) ([]byte, bool, error) {
 	fset := token.NewFileSet()
-	src, err := os.ReadFile(file)
-	if err != nil {
-		return nil, false, err
+	if src == nil {
+		var err error
+		src, err = os.ReadFile(file)
+		if err != nil {
+			return nil, false, err
+		}
 	}
 	f, err := parser.ParseFile(fset, file, src, parser.ParseComments)
 	if err != nil {
